@@ -106,11 +106,24 @@ class _FStrLocals(ast.NodeTransformer):
             return self.visit(copy.deepcopy(self.cat[n.id]))
         return n
 
+    def _pieces(self, e: ast.AST) -> list:
+        """the f-string pieces of a string-building expression (f-string, `+` concatenation, literal, anything else as one slot)"""
+        if isinstance(e, ast.JoinedStr):
+            return list(self.visit(e).values)
+        if isinstance(e, ast.BinOp) and isinstance(e.op, ast.Add):
+            return self._pieces(e.left) + self._pieces(e.right)
+        if isinstance(e, ast.Constant) and isinstance(e.value, str):
+            return [e]
+        if isinstance(e, ast.Name) and e.id in self.cat:
+            return self._pieces(copy.deepcopy(self.cat[e.id]))
+        return [ast.FormattedValue(value=e, conversion=-1, format_spec=None)]
+
     def visit_JoinedStr(self, n):
         vals = []
         for v in n.values:
-            if isinstance(v, ast.FormattedValue) and isinstance(v.value, ast.Name) and v.value.id in self.defs and v.conversion == -1 and v.format_spec is None:
-                vals += self.visit(copy.deepcopy(self.defs[v.value.id])).values
+            if isinstance(v, ast.FormattedValue) and isinstance(v.value, ast.Name) and v.conversion == -1 and v.format_spec is None \
+                    and (v.value.id in self.defs or v.value.id in self.cat):
+                vals += self._pieces(copy.deepcopy(self.defs.get(v.value.id, self.cat.get(v.value.id))))
             else:
                 vals.append(v)
         n.values = vals
@@ -120,16 +133,51 @@ class _FStrLocals(ast.NodeTransformer):
 def _returns(fn: ast.AST) -> List[ast.AST]:
     out = []
     tr = _FStrLocals(fn)
+    # a result local that is assigned once per arm of an if/elif chain (`entry = ...` three times, then `return pragma + entry`)
+    multi: Dict[str, List[ast.AST]] = {}
+    for n in ast.walk(fn):
+        if isinstance(n, ast.Assign) and len(n.targets) == 1 and isinstance(n.targets[0], ast.Name) \
+                and isinstance(n.value, (ast.JoinedStr, ast.BinOp, ast.IfExp, ast.Constant)):
+            multi.setdefault(n.targets[0].id, []).append(n.value)
+    n_stores: Dict[str, int] = {}
+    for n in ast.walk(fn):
+        if isinstance(n, ast.Name) and isinstance(n.ctx, ast.Store):
+            n_stores[n.id] = n_stores.get(n.id, 0) + 1
+    # ... and in no other way (a value that is also taken from elsewhere, like `val`, is a slot, not a line shape)
+    multi = {k: v for k, v in multi.items() if len(v) > 1 and n_stores.get(k) == len(v)
+             and not any(isinstance(x, ast.Name) and x.id == k for e in v for x in ast.walk(e))}
     for n in ast.walk(fn):
         if isinstance(n, ast.Return) and n.value is not None:
-            v = tr.visit(copy.deepcopy(n.value))
-            stack = [v]
-            while stack:
-                x = stack.pop()
-                if isinstance(x, ast.IfExp):
-                    stack += [x.body, x.orelse]
-                else:
-                    out.append(x)
+            variants = [n.value]
+            for name, vals in multi.items():
+                if any(isinstance(x, ast.Name) and x.id == name for x in ast.walk(n.value)):
+                    nv = []
+                    for base in variants:
+                        for val in vals:
+                            class _S(ast.NodeTransformer):
+                                def visit_Name(self, m, name=name, val=val):
+                                    return copy.deepcopy(val) if m.id == name and isinstance(m.ctx, ast.Load) else m
+                            nv.append(_S().visit(copy.deepcopy(base)))
+                    variants = nv
+            for base in variants:
+                v = tr.visit(copy.deepcopy(base))
+                stack = [v]
+                while stack:
+                    x = stack.pop()
+                    if isinstance(x, ast.IfExp):
+                        stack += [x.body, x.orelse]
+                    elif isinstance(x, ast.BinOp) and isinstance(x.op, ast.Add) and any(isinstance(y, ast.IfExp) for y in (x.left, x.right)):
+                        # `prefix + (a if c else b)`: one shape per arm
+                        for side in ("left", "right"):
+                            y = getattr(x, side)
+                            if isinstance(y, ast.IfExp):
+                                for arm in (y.body, y.orelse):
+                                    z = copy.deepcopy(x)
+                                    setattr(z, side, arm)
+                                    stack.append(z)
+                                break
+                    else:
+                        out.append(x)
     return out
 
 
